@@ -261,7 +261,18 @@ impl DbPool {
                 .await
                 .backup(current_path.to_string_lossy().as_ref())?;
         }
-        *user_db = UserDb::new(current_path.to_string_lossy().as_ref(), target_type)?;
+        // The current database object must be closed before its file is
+        // opened again as the target type: two live objects over one file
+        // overwrite each other's view of it (the old one still flushes and
+        // defragments the file when it is dropped).
+        *user_db.0.write().await = agdb::DbAny::new_memory("")?;
+        *user_db = match UserDb::new(current_path.to_string_lossy().as_ref(), target_type) {
+            Ok(converted) => converted,
+            Err(e) => {
+                *user_db = UserDb::new(current_path.to_string_lossy().as_ref(), db_type)?;
+                return Err(e);
+            }
+        };
 
         if db_type != DbKind::Memory && target_type == DbKind::Memory {
             if backup_exists {
